@@ -41,8 +41,10 @@ var mapRangeExceptions = map[string]string{}
 // the error the call can return does not depend on what was inserted before (read in the dependency; one line each).
 // Named by the callee, so it holds wherever the loop lives (a closure, a method, a helper).
 var keyedInsertCallees = map[string]string{
-	"jsight-schema-core/notations/jschema.(*JSchema).AddRule":         "stores into the schema's rule map under the name; the errors (nil rule, a rule that fails Check) concern the single rule and were excluded when core.buildRule built it",
-	"jsight-schema-core/notations/jschema.(*JSchema).AddType":         "stores into the schema's type map under the name; the only error (duplicate name) cannot occur since the keys of a Go map are distinct",
+	"jsight-schema-core/notations/jschema.(*JSchema).AddRule": "stores into the schema's rule map under the name; the errors (nil rule, a rule that fails Check) concern the single rule and were excluded when core.buildRule built it",
+	// (*JSchema).AddType is NOT in this table: besides a duplicate name it fails on a name the library does not accept
+	// and on a type that does not load - errors that name the element (F54: the witness "the only error is a duplicate
+	// name" that stood here was wrong)
 	"jsight-schema-core/notations/jschema/ischema.(*ISchema).AddType": "stores the type into the inner schema's map under its name; no error result",
 	"jsight-schema-core.(Schema).AddRule":                             "the interface method: (*JSchema).AddRule as above, (*RSchema).AddRule does nothing and returns nil; the already-compiled error of (*JSchema).AddRule does not depend on the rules added before either",
 }
